@@ -305,6 +305,47 @@ func (c *Ctx) c17Resolve(cases *[]mcase) {
 					}
 				}
 			}
+			// SetColStyle and SetRowStyle affect exactly the addressed column / row: every cell of it reports the new
+			// style (whatever row style, column style or own style it reported before), every other cell what it did
+			if len(styles) > 4 {
+				for _, byCol := range []bool{true, false} {
+					at := 1 + c.Rng.Intn(7)
+					var pre [10][10]int
+					for r := 1; r <= 8; r++ {
+						for col := 1; col <= 8; col++ {
+							n, _ := excelize.CoordinatesToCellName(col, r)
+							pre[r][col], _ = f.GetCellStyle(h.Sheet, n)
+						}
+					}
+					st := styles[3]
+					var err error
+					what := ""
+					if byCol {
+						cn, _ := excelize.ColumnNumberToName(at)
+						err, what = f.SetColStyle(h.Sheet, cn, st), "SetColStyle("+cn+")"
+					} else {
+						st = styles[4]
+						err, what = f.SetRowStyle(h.Sheet, at, at, st), fmt.Sprintf("SetRowStyle(%d)", at)
+					}
+					if err != nil {
+						continue
+					}
+					for r := 1; r <= 8; r++ {
+						for col := 1; col <= 8; col++ {
+							n, _ := excelize.CoordinatesToCellName(col, r)
+							got, _ := f.GetCellStyle(h.Sheet, n)
+							want := pre[r][col]
+							if (byCol && col == at) || (!byCol && r == at) {
+								want = st
+							}
+							if got != want {
+								c.Fail("oracle", "C17_range_exact", map[string]interface{}{"history": h, "then": what}, fmt.Sprintf("%s with style %d: cell %s reports style %d, expected %d", what, st, n, got, want), "")
+								return
+							}
+						}
+					}
+				}
+			}
 		})
 	}
 }
